@@ -13,7 +13,7 @@
    Both budgets are 40 followed links; ELOOP is part of the agreement.  What is NOT covered: paths that are not of
    the form "/c1/.../cn" with proper names (handled by Clean: C01_unclean); EvalSymlinks' error KIND on a loop. *)
 From Avfs Require Import Base PathModel PathSpec PathProofs PathCleanProofs PathIterProofs.
-From Avfs Require Import MemFS MemFile World Posix WalkBridge WalkSym WalkBudget WalkReadlink.
+From Avfs Require Import MemFS MemFile World Posix Inv WalkBridge WalkSym WalkBudget WalkReadlink WalkRel StepEq WalkInv.
 
 (* the search-permission test is the same function on both sides *)
 Theorem C04_perm_agree : forall (m : meta) (u : user),
@@ -69,6 +69,38 @@ Theorem C04_resolve_sized : forall (s : fsys) (sv : sview) (slm : slmode) (cs : 
   let r := search_node s v (abs_path cs) slm in
   walk_rel h (v_user v) (v_root v) (precise_of slm) r K.
 Proof. exact sym_bridge_lookup_sized. Qed.
+
+(* ... on the states of C05: every world satisfying the invariant [Inv] (which every reachable world does: C05_reach),
+   any view, any user; [links_clean] is the one hypothesis that is not part of [Inv] *)
+Theorem C04_resolve_inv : forall (w : world) (vi : nat) (v : view) (cwdn : nat) (slm : slmode) (cs : list str),
+  Inv w -> nth_error (w_views w) vi = Some v -> links_clean (f_heap (w_fs w)) -> Forall good_comp cs ->
+  let s := w_fs w in
+  let sv := {| sv_view := v; sv_cwd := cwdn |} in
+  let K := klookup s sv false (follow_of slm) (abs_path cs) in
+  let r := search_node s v (abs_path cs) slm in
+  K <> WErr EFUEL -> sr_err r <> EFuel ->
+  walk_rel (f_heap s) (v_user v) (v_root v) (precise_of slm) r K.
+Proof. exact Inv_resolve. Qed.
+
+Theorem C04_inv_walk_wf : forall (h : heap), Inv_heap h -> walk_wf h /\ ptr_valid h.
+Proof. intros h I. split; [exact (Inv_heap_walk_wf h I)|exact (Inv_heap_ptr_valid h I)]. Qed.
+
+(* RELATIVE paths: the implementation resolves Abs(cwd, p) lexically from the root, the kernel resolves p from the
+   working-directory node.  They agree when the cwd string is a directory walk (link-free, searchable by the caller)
+   from the root to that node, for every lexically clean relative p (k leading "..", then proper names; or ".") *)
+Theorem C04_resolve_rel : forall (s : fsys) (sv : sview) (slm : slmode) (bs : list str) (x : str),
+  let v := sv_view sv in
+  let h := f_heap s in
+  let p := clean Linux x in
+  v_os v = Linux -> walk_wf h -> links_clean h -> node_is_dir h (v_root v) = true ->
+  kperm h (v_root v) 1 (v_user v) = true ->
+  v_cwd v = abs_path bs -> Forall good_comp bs -> dwalk h (v_user v) (v_root v) bs = Some (sv_cwd sv) ->
+  is_abs Linux p = false ->
+  let K := klookup s sv false (follow_of slm) p in
+  let r := search_node s v p slm in
+  K <> WErr EFUEL -> sr_err r <> EFuel ->
+  walk_rel h (v_user v) (v_root v) (precise_of slm) r K.
+Proof. exact sym_bridge_lookup_rel. Qed.
 
 (* the loop invariant itself, from any synchronised position of the two walks *)
 Theorem C04_resolve_at : forall (h : heap) (v : view),
